@@ -1,6 +1,7 @@
 import GoLevel.Proofs.IterLSM
 import GoLevel.Proofs.MergeHeapSim
 import GoLevel.Props.C01
+import GoLevel.Props.C02Err
 /-!
 # Property C02 — iterators present exactly the live pairs of their view, as a cursor over the sorted list
 
@@ -23,6 +24,9 @@ sorted levels whose indexed iterator is built by `levelIter` (`tFiles.newIndexIt
 per-table range filtering in `level_iter_is_range_filter`).  `db_iterator_presents_view` ties the stack to the
 LSM model of C01: over `dbGet`'s sources the iterator is the cursor over the sorted list of `(k, v)` with
 `view … k seq = some v`, i.e. of what `Get` returns.
+
+The error paths (children that fail, strict / non-strict mode, `Error()`; defect D40) are in
+`GoLevel/Props/C02Err.lean` (section h below lists its theorems).
 
 Every theorem quantifies over **every finite sequence of the five calls** (`cs : List (Call _)`), every lawful
 comparer, every sorted raw content, every snapshot sequence number.  `fuel` is the bound of the scanning
@@ -624,5 +628,7 @@ def theorems : List String :=
    "GoLevel.C02.heap_init_establishes_invariant", "GoLevel.C02.heap_push_preserves_invariant",
    "GoLevel.C02.heap_pop_returns_minimum", "GoLevel.C02.merged_heap_refines_abstract",
    "GoLevel.C02.merged_heap_refines_cursor", "GoLevel.C02.stack_heap_refines_cursor"]
+  -- h. the error paths (`Props/C02Err.lean`)
+  ++ errTheorems
 
 end GoLevel.C02
